@@ -4,7 +4,7 @@ import treegen, pyfmt
 
 PID = "C10"
 TARGETS = ["Run.vo", "Resp_proofs.vo"]
-IMPORTS = "From VF Require Import Base Show Gen_Errors Lexer Response Tree Scripted Run."
+IMPORTS = "From VF Require Import Base Show Gen_Errors Lexer Response Conv Tree Scripted Run."
 ALLOWED_AXIOMS = []
 PROFILES = ["debug"]
 RULE = ("random trees whose query handlers write 0..2 response headers and 1..4 data elements of random types (integers, radix "
